@@ -452,6 +452,7 @@ class World:
         self.grids = {}
         self.pcont = {}
         self.fixes = {}
+        self.born = {}
 
     def _walk(self, a):
         self.byname[a.name] = a
@@ -497,6 +498,7 @@ class World:
         else:
             raise ValueError(f)
         self.pcont[pid] = c
+        self.born['prices #%d (%s)' % (pid, f)] = canon_user(c, False)      # state at creation, before any call saw it
         return c
 
     def user_data(self):
@@ -526,9 +528,11 @@ class Snap:
             strict = canon_user(obj, False)
             if label not in self.base:
                 # attributes that appear on an asset after construction are computed by set-up, not user data
-                if not (label.startswith('asset ') and after_call >= 0):
-                    self.base[label] = strict
-                continue
+                if label.startswith('asset ') and after_call >= 0:
+                    continue
+                self.base[label] = world.born.get(label, strict)
+                if strict == self.base[label]:
+                    continue
             if strict == self.base[label]:
                 continue
             before = self.base[label]
@@ -975,6 +979,71 @@ def describe(case):
     return '\n'.join(lines)
 
 
+def classify(v):
+    """root-cause family of a violation (see notes/findings_history.md); 'other' = not yet explained"""
+    f = v['facts']
+    if f.get('prices_changed_before') and f.get('prices_form') in ('df_range',) and f['op'] in ('pf_split', 'io_optimize', 'pf_setup', 'asset_setup', 'asset_noarg', 'cost_samples'):
+        return 'H1-prices-frame-index-replaced'
+    if f['op'] == 'asset_noarg' and f.get('asset_type') == 'ScaledAsset':
+        return 'H2-scaled-asset-without-grid-argument'
+    if f['op'] == 'asset_noarg' and f.get('nested') and 'pf_split' in f.get('history_ops', []) + ['io_optimize' if 'io_optimize' in f.get('history_ops', []) else '']:
+        return 'H3-wrapped-asset-left-on-interval-grid-after-split'
+    if f['op'] == 'asset_noarg' and f.get('nested') and 'io_optimize' in f.get('history_ops', []):
+        return 'H3-wrapped-asset-left-on-interval-grid-after-split'
+    return 'other'
+
+
+def _wgrid(start, end, unit='h', tz=None):
+    g = {'start': start, 'end': end, 'freq': 'h', 'unit': unit, 'tz': tz, 'step_s': 3600}
+    gen.fix_grid(g)
+    return g
+
+
+def witness_cases():
+    """hand-minimised histories pinning the known deviations H1-H3 (same text as in the findings notes)"""
+    A = _wgrid('2021-01-01T00:00:00', '2021-01-01T04:00:00')
+    B = _wgrid('2021-01-02T00:00:00', '2021-01-02T04:00:00')
+    Amin = _wgrid('2021-01-01T00:00:00', '2021-01-01T04:00:00', unit='min')
+    Autc = _wgrid('2021-01-01T00:00:00', '2021-01-01T04:00:00', tz='UTC')
+    mkt = {'type': 'SimpleContract', 'name': 'mkt1', 'nodes': ['N1'], 'args': {'min_cap': -1.0, 'max_cap': 1.0, 'price': 'p0'}}
+    sca = {'type': 'ScaledAsset', 'name': 'sca1', 'args': {'max_scale': 2.0, 'fix_costs': 1.0},
+           'base': {'type': 'SimpleContract', 'name': 'sca1_b', 'nodes': ['N1'], 'args': {'min_cap': -1.0, 'max_cap': 1.0, 'price': 'p0'}}}
+    p = [1.0, 2.0, 3.0, 4.0]
+    base = lambda assets: {'grid': A, 'nodes': ['N1'], 'prices': {'p0': p}, 'assets': assets}
+    return {
+        'H1-prices-frame-index-replaced': {
+            'base': base([mkt]), 'grids': [A, B], 'prices': [{'T': 4, 'form': 'df_range', 'data': {'p0': p}}],
+            'history': [{'op': 'pf_split', 'grid': 0, 'reuse': True, 'prices': 0, 'interval': '2h'},
+                        {'op': 'pf_split', 'grid': 1, 'reuse': True, 'prices': 0, 'interval': '2h'}]},
+        'H1-prices-frame-index-replaced/raises': {
+            'base': base([mkt]), 'grids': [A, Autc], 'prices': [{'T': 4, 'form': 'df_range', 'data': {'p0': p}}],
+            'history': [{'op': 'io_optimize', 'grid': 1, 'reuse': True, 'prices': 0, 'interval': '2h'},
+                        {'op': 'io_optimize', 'grid': 0, 'reuse': True, 'prices': 0, 'interval': '2h'}]},
+        'H2-scaled-asset-without-grid-argument': {
+            'base': base([sca]), 'grids': [A, Amin], 'prices': [{'T': 4, 'form': 'dict', 'data': {'p0': p}}],
+            'history': [{'op': 'asset_setup', 'asset': 'sca1', 'grid': 1, 'reuse': True, 'prices': 0},
+                        {'op': 'set_timegrid', 'asset': 'sca1', 'grid': 0, 'reuse': True},
+                        {'op': 'asset_noarg', 'asset': 'sca1', 'prices': 0}]},
+        'H2-scaled-asset-without-grid-argument/raises': {
+            'base': base([sca]), 'grids': [A], 'prices': [{'T': 4, 'form': 'dict', 'data': {'p0': p}}],
+            'history': [{'op': 'set_timegrid', 'asset': 'sca1', 'grid': 0, 'reuse': True},
+                        {'op': 'asset_noarg', 'asset': 'sca1', 'prices': 0}]},
+        'H3-wrapped-asset-left-on-interval-grid-after-split': {
+            'base': base([sca, mkt]), 'grids': [A], 'prices': [{'T': 4, 'form': 'dict', 'data': {'p0': p}}],
+            'history': [{'op': 'pf_split', 'grid': 0, 'reuse': True, 'prices': 0, 'interval': '2h'},
+                        {'op': 'asset_noarg', 'asset': 'sca1_b', 'prices': 0}]},
+    }
+
+
+def check_witnesses():
+    """name -> list of (oracle, detail) the oracle reports on the pinned histories (empty list = repaired)"""
+    out = {}
+    for name, case in witness_cases().items():
+        r = execute(case)
+        out[name] = [(v['oracle'], classify(v), v['detail'][:200]) for v in r['violations']]
+    return out
+
+
 def selftest(n, seed, drv=None, verbose=False, do_shrink=True):
     """n random histories; returns counts, violations (shrunk, de-duplicated by (kind, op)), facts histogram"""
     rnd = random.Random(seed)
@@ -1002,7 +1071,9 @@ def selftest(n, seed, drv=None, verbose=False, do_shrink=True):
         if r['violations']:
             counts['violating_cases'] += 1
             for v in r['violations']:
-                sig = (v['facts']['kind'], v['facts']['op'])
+                cl = classify(v)
+                counts['class:' + cl] = counts.get('class:' + cl, 0) + 1
+                sig = (v['facts']['kind'], v['facts']['op'], cl)
                 if sig in seen:
                     continue
                 seen.add(sig)
@@ -1013,7 +1084,7 @@ def selftest(n, seed, drv=None, verbose=False, do_shrink=True):
                 if verbose:
                     print('VIOLATION case %d: %s' % (i, vv['detail'][:300]))
     return {'counts': counts, 'features': dict(sorted(feats.items())), 'facts': dict(sorted(facts_h.items())),
-            'violations': viols, 'harness_errors': herrs, 'disagreements': []}
+            'violations': viols, 'harness_errors': herrs, 'disagreements': [], 'witnesses': check_witnesses()}
 
 
 if __name__ == '__main__':
@@ -1023,6 +1094,8 @@ if __name__ == '__main__':
     seed = int(sys.argv[2]) if len(sys.argv) > 2 else 1
     r = selftest(n, seed, verbose=True)
     print(json.dumps(r['counts']))
+    for k, v in r['witnesses'].items():
+        print('witness', k, '->', v)
     print(json.dumps(r['features'], indent=0)[:3000])
     print(json.dumps(r['facts'], indent=0)[:3000])
     for e in r['harness_errors'][:3]:
